@@ -407,6 +407,9 @@ func (c *Ctx) Concretize(t *smt.Term) *smt.Term {
 	} else {
 		c.Queries++
 		r, err := c.Solver.Check(c.ObligMs)
+		if err == nil && r == smt.Unsat {
+			abortf("infeasible path (path condition unsat at a concretization)")
+		}
 		if err != nil || r != smt.Sat {
 			abortf("unsupported: cannot concretize a symbolic value (path condition %v)", r)
 		}
